@@ -23,6 +23,7 @@
 #include "core/tbftreetsm.hpp"
 #include "algorithms/tbfalgorithmutils.hpp"
 #include "algorithms/sequential/tbfalgorithm.hpp"
+#include "algorithms/sequential/tbfalgorithmtsm.hpp"
 #include "kernels/testkernel/tbftestkernel.hpp"
 
 #ifndef DIM
@@ -54,6 +55,9 @@ using SpaceIndex = TbfMortonSpaceIndex<Dim, Config, (PERIODIC != 0)>;
 using Multipole = std::array<long int, 1>;
 using Local = std::array<long int, 1>;
 using Tree = TbfTree<RealType, DataType, NbData, long int, NbRhs, Multipole, Local, SpaceIndex>;
+#if NRHS > 0
+using TreeTsm = TbfTreeTsm<RealType, DataType, NbData, long int, NbRhs, Multipole, Local, SpaceIndex>;
+#endif
 
 template <class T> struct Bits;
 template <> struct Bits<double> { using U = uint64_t; };
@@ -81,6 +85,9 @@ struct Case {
     std::vector<std::array<RealType, NbData>> particles;
     std::unique_ptr<Config> config;
     std::unique_ptr<Tree> tree;
+#if NRHS > 0
+    std::unique_ptr<TreeTsm> tsm;
+#endif
 };
 
 static uint64_t fnv(const unsigned char* p, size_t n, uint64_t h = 1469598103934665603ULL){
@@ -203,12 +210,73 @@ int main(){
         else if(op == "dump" && ts[1] == "tsmleaves"){
             // the same particles as the source set and as the target set of a target/source tree: what each side stores
 #if NRHS > 0
-            using TreeTsm = TbfTreeTsm<RealType, DataType, NbData, long int, NbRhs, Multipole, Local, SpaceIndex>;
             std::unique_ptr<TreeTsm> tsm(new TreeTsm(*cs.config, cs.particles, cs.particles, kv(ts, "bs", 1), kv(ts, "mode", 0) != 0));
             dumpLeavesOf(tsm->getParticleGroupsSource(), "s");
             dumpLeavesOf(tsm->getParticleGroupsTarget(), "t");
 #endif
         }
+#if NRHS > 0
+        else if(op == "tsm" && ts.size() > 1){
+            // a target/source tree over the same particles (both sets), with its own move / rebuild / execute / export history
+            const std::string& sub = ts[1];
+            if(sub == "build"){
+                cs.tsm.reset(new TreeTsm(*cs.config, cs.particles, cs.particles, kv(ts, "bs", 1), kv(ts, "mode", 0) != 0));
+            }
+            else if(sub == "move"){       // tsm move <s|t> <orig> <D hex coords (DataType bit patterns)>
+                const bool src = (ts[2] == "s");
+                const long target = std::stol(ts[3]);
+                std::array<DataType, Dim> np;
+                for(long d = 0 ; d < Dim ; ++d) np[d] = fromHex<DataType>(ts[4 + d]);
+                bool done = false;
+                auto edit = [&](auto&& leafHeader, const long int* idx, auto data, auto){
+                    for(long p = 0 ; p < leafHeader.nbParticles ; ++p) if(idx[p] == target){ for(long d = 0 ; d < Dim ; ++d) data[d][p] = np[d]; done = true; }
+                };
+                if(src) cs.tsm->applyToAllLeavesSource(edit); else cs.tsm->applyToAllLeavesTarget(edit);
+                if(!done) std::cout << "X tsm move: particle " << target << " not found\n";
+            }
+            else if(sub == "rebuild"){ cs.tsm->rebuild(); }
+            else if(sub == "exec"){
+                std::unique_ptr<TbfAlgorithmTsm<RealType, TbfTestKernel<RealType, SpaceIndex>, SpaceIndex>> algo(
+                    new TbfAlgorithmTsm<RealType, TbfTestKernel<RealType, SpaceIndex>, SpaceIndex>(*cs.config, PERIODIC ? 1 : 2));
+                algo->execute(*cs.tsm);
+                std::cout << "EX\n";
+            }
+            else if(sub == "dump"){
+                dumpLeavesOf(cs.tsm->getParticleGroupsSource(), "s");
+                dumpLeavesOf(cs.tsm->getParticleGroupsTarget(), "t");
+                std::map<long, std::string> r;
+                cs.tsm->applyToAllLeavesTarget([&](auto&& leafHeader, const long int* idx, auto, auto rhs){
+                    for(long p = 0 ; p < leafHeader.nbParticles ; ++p){
+                        std::ostringstream os; os << "tR " << idx[p];
+                        for(long k = 0 ; k < NbRhs ; ++k) os << " " << rhs[k][p];
+                        r[idx[p]] = os.str();
+                    }
+                });
+                for(auto& kvp : r) std::cout << kvp.second << "\n";
+            }
+            else if(sub == "export"){
+                auto ds = cs.tsm->getAllParticlesDataSource();
+                for(long i = 0 ; i < (long)cs.particles.size() ; ++i){
+                    std::cout << "XDs " << i << " " << sizeof(ds[i][0])*8;
+                    for(long k = 0 ; k < NbData ; ++k) std::cout << " " << toHexAny(ds[i][k]);
+                    std::cout << "\n";
+                }
+                auto dt = cs.tsm->getAllParticlesDataTarget();
+                for(long i = 0 ; i < (long)cs.particles.size() ; ++i){
+                    std::cout << "XDt " << i << " " << sizeof(dt[i][0])*8;
+                    for(long k = 0 ; k < NbData ; ++k) std::cout << " " << toHexAny(dt[i][k]);
+                    std::cout << "\n";
+                }
+                auto rt = cs.tsm->getAllParticlesRhsTarget();
+                for(long i = 0 ; i < (long)cs.particles.size() ; ++i){
+                    std::cout << "XRt " << i;
+                    for(long k = 0 ; k < NbRhs ; ++k) std::cout << " " << rt[i][k];
+                    std::cout << "\n";
+                }
+            }
+            else std::cout << "bad-op " << line << "\n";
+        }
+#endif
         else if(op == "dump" && ts[1] == "groups"){ dumpGroups(*cs.tree); }
         else if(op == "dump" && ts[1] == "zero"){ dumpZero(*cs.tree); }
         else if(op == "dump" && ts[1] == "rhs"){ dumpRhs(*cs.tree); }
